@@ -136,4 +136,18 @@ Proof.
   intros r Hr. now rewrite (C14P.nth_map_seq _ k r []).
 Qed.
 
+(* a covariance without a Cholesky factor in C08's sense (in particular every covariance that is
+   not positive definite: L L^T with positive diagonal is), or a non-square one: the draw is
+   absent and has consumed nothing, for every number of samples and every pair of names *)
+Theorem mv_draw_absent_no_factor (lt : R -> R -> Prop) (mean : list R) cov (src : list R)
+    (k : N) (ns nf : nat) :
+  C08P5.ordered_sqrt_field ops lt ->
+  (~ exists L, C08P5.cholesky_factor ops lt cov L) \/ mrows cov <> mcols cov ->
+  Gaussian.draw_tensor_samples ops mean cov src k ns nf = (None, src).
+Proof.
+  intros Hof Hno. unfold Gaussian.draw_tensor_samples.
+  destruct (Nat.eqb ns nf); [reflexivity|].
+  now rewrite cholesky_same, (C08P5.cholesky_rejects_b ops lt cov Hof Hno).
+Qed.
+
 End Same.
